@@ -22,6 +22,7 @@ RULE = ('grid of decimal texts (sign x integer part in {0,1,2,7,12,123,99999} x 
 ASSUMPTIONS = ['decimal.Decimal quantize is the reading of "decimal-exact" rounding',
                'a float override carries the double nearest to the decimal text (<= 9 significant digits here)',
                'CPython float()/repr round-trip']
+HOST_SETTINGS = {'shards': lambda shards: [1, len(shards) - 6, len(shards) - 4, len(shards) - 1], 'env': {'VERIF_HOST_DECIMAL': '4,ROUND_UP'}}
 FLOORS = {'quick': {'evaluations': 100000, 'nontrivial': 20000}, 'thorough': {'evaluations': 3000000, 'nontrivial': 500000}}
 
 IPS = [0, 1, 2, 7, 12, 123, 99999]
